@@ -122,6 +122,38 @@ theorem safe_xferAll_fwd {inp : Input} {a n : Nat} {d : Dest} (hc : catIn inp a 
   · exact safe_xferAll_copy (lvcr_of_any hc h) hn hd
   · exact safe_xferAll_move (not_lvcr_of_rv h) hn hd
 
+theorem isMv_cases {inp : Input} {a : Nat} (hc : catIn inp a [.lv, .cr, .rv, .io] = true) :
+    (inp.isMv a = true ∧ ¬ IsLvCr (inp.cat a)) ∨ (inp.isMv a = false ∧ IsLvCr (inp.cat a)) := by
+  obtain ⟨c, hc, hm⟩ := (catIn_iff inp a _).1 hc
+  simp only [Input.isMv, hc, IsLvCr]
+  cases c <;> simp
+
+/-- `xferAll a n (fwd mv) d` where `mv` also covers an lvalue the caller asked to move -/
+theorem safe_xferAll_mv {inp : Input} {a n : Nat} {d : Dest} (hc : catIn inp a [.lv, .cr, .rv, .io] = true) (hn : n ≤ inp.size a)
+    (hd : DestOk inp d) : Safe inp (xferAll a n (fwd (inp.isMv a)) d) := by
+  rcases isMv_cases hc with ⟨h, hl⟩ | ⟨h, hl⟩
+  · rw [h]; exact safe_xferAll_move hl hn hd
+  · rw [h]; exact safe_xferAll_copy hl hn hd
+
+theorem safe_fresh_range {inp : Input} (n : Nat) (d : Dest) (hd : DestOk inp d) :
+    Safe inp ((List.range n).map fun j => Instr.fresh (1000 + j) d) := by
+  refine ⟨?_, ?_⟩
+  · intro x hx
+    simp only [List.mem_map, List.mem_range] at hx
+    obtain ⟨j, _, rfl⟩ := hx
+    exact (ok_fresh inp _ d).2 ⟨by omega, hd⟩
+  · apply clean_of_no_kills
+    intro x hx b j hk
+    simp only [List.mem_map, List.mem_range] at hx
+    obtain ⟨j, _, rfl⟩ := hx
+    exact hk
+
+theorem noKills_fresh_range (n : Nat) (d : Dest) : NoKills ((List.range n).map fun j => Instr.fresh (1000 + j) d) := by
+  intro x hx b j hk
+  simp only [List.mem_map, List.mem_range] at hx
+  obtain ⟨j, _, rfl⟩ := hx
+  exact hk
+
 theorem safe_deriveEach {inp : Input} {a : Nat} {ks : List Nat} {d : Dest} (hn : ks.length ≤ inp.size a)
     (hd : DestOk inp d) : Safe inp (deriveEach a ks d) := by
   refine ⟨(forall_mem_deriveEach _ _ _ _).2 fun i k hk => (ok_derive inp a i k d).2 ⟨?_, hd⟩, ?_⟩
